@@ -75,6 +75,25 @@ static void e2e_new_definite(uint64_t n) {
   }
 }
 
+/* constructors that take a client-supplied length: the payload request must cover it, or the call must fail before anything
+ * is copied (the source here is 8 bytes long: a correct library never reads it, because the allocator refuses > 1 MiB) */
+static void e2e_build(uint64_t n) {
+  static const char* const names[] = {"cbor_build_stringn", "cbor_build_bytestring"};
+  uint8_t d[10] = {'B', 0};
+  for (int i = 0; i < 8; i++) d[2 + i] = (uint8_t)(n >> (56 - 8 * i));
+  static const unsigned char src[8] = "payload";
+  if (n <= BIG + 64) return; /* lengths the allocator would grant would make the library (rightly) read n bytes of src */
+  for (int which = 0; which < 2; which++) {
+    d[1] = (uint8_t)which;
+    bool run; e2e_begin(d, 10, &run); if (!run) continue;
+    cbor_item_t* it = which == 0 ? cbor_build_stringn((const char*)src, (size_t)n) : cbor_build_bytestring(src, (size_t)n);
+    check_requests((u128)n, it == NULL, names[which], n);
+    if (it) { vh_violation("proceeded-on-truncated-size", "%s with length %llu returned an item although the allocator refuses every request above 1 MiB", names[which], (unsigned long long)n); it->data = NULL; cbor_decref(&it); }
+    if (ta_live_count()) { vh_violation("leak", "%zu block(s) left after a refused %s", ta_live_count(), names[which]); ta_forget_all(); }
+    vh_nontrivial(vh_hash(d, 10));
+  }
+}
+
 static void e2e_load(unsigned ib, uint64_t n) {
   uint8_t d[10] = {'L', (uint8_t)ib};
   for (int i = 0; i < 8; i++) d[2 + i] = (uint8_t)(n >> (56 - 8 * i));
@@ -269,6 +288,7 @@ static void arith_run(void) {
         uint64_t n = (k == 64 ? 0 : (uint64_t)1 << k) + (uint64_t)dd;
         if (n < BIG) continue;
         e2e_new_definite(n);
+        e2e_build(n);
         static const unsigned heads[] = {0x9b, 0xbb, 0x5b, 0x7b};
         for (int h = 0; h < 4; h++) e2e_load(heads[h], n);
         for (int kind = 0; kind < 5; kind++) e2e_growth(kind, n);
@@ -279,7 +299,7 @@ static void arith_run(void) {
       uint64_t n = ((uint64_t)1 << k) - 1;
       e2e_new_definite(n);
     }
-    vh_set_rule("each case is one public-API call with a declared count, length or pretended capacity of 2^k+d (k = 20..64, d = -2..2): creation of definite containers, cbor_load of 8-byte-count heads, growth of indefinite arrays/maps/chunk tables, cbor_serialized_size / cbor_serialize_alloc of trees whose exact total crosses 2^64; the allocator records every request and refuses those above 1 MiB; distinct by hash");
+    vh_set_rule("each case is one public-API call with a declared count, length or pretended capacity of 2^k+d (k = 20..64, d = -2..2): creation of definite containers, cbor_build_stringn / cbor_build_bytestring with that length, cbor_load of 8-byte-count heads, growth of indefinite arrays/maps/chunk tables, cbor_serialized_size / cbor_serialize_alloc of trees whose exact total crosses 2^64; the allocator records every request and refuses those above 1 MiB; distinct by hash");
     vh_set_exhaustive(false);
   } else vh_die("driver arith: unknown stage '%s'", st);
 }
@@ -287,7 +307,7 @@ static void arith_exec(const uint8_t* d, size_t n) {
   arith_setup();
   uint64_t v = 0;
   if (n == 17 && d[0] == 'P') { uint64_t a = 0, b = 0; for (int i = 0; i < 8; i++) { a = a << 8 | d[1 + i]; b = b << 8 | d[9 + i]; } pair_case(a, b, true); return; }
-  if (n == 10) { for (int i = 0; i < 8; i++) v = v << 8 | d[2 + i]; if (d[0] == 'N') { e2e_new_definite(v); return; } if (d[0] == 'L') { e2e_load(d[1], v); return; } if (d[0] == 'G') { e2e_growth(d[1], v); return; } }
+  if (n == 10) { for (int i = 0; i < 8; i++) v = v << 8 | d[2 + i]; if (d[0] == 'N') { e2e_new_definite(v); return; } if (d[0] == 'B') { e2e_build(v); return; } if (d[0] == 'L') { e2e_load(d[1], v); return; } if (d[0] == 'G') { e2e_growth(d[1], v); return; } }
   if (n == 11 && d[0] == 'Z') { for (int i = 0; i < 8; i++) v = v << 8 | d[3 + i]; e2e_size(d[1], v, d[2]); return; }
   if (n == 4 && d[0] == 'W') { uint64_t cons = 0; if (d[1] == 8) n8_sweep(0, 256, 1, &cons, narrow_report); else if (d[1] == 16) n16_sweep((uint64_t)d[2] << 8, ((uint64_t)d[2] << 8) + 256, d[3] ? d[3] : 1, &cons, narrow_report); else printf("edge rows: re-run the stage\n"); return; }
   printf("unrecognised descriptor\n");
